@@ -66,6 +66,8 @@ type Scenario struct {
 	// return of the first Subscribe, Subscribe is called again on the same,
 	// now closed, reconnecting client: it must return.
 	Resub bool `json:"resubscribe,omitempty"`
+	// LongOutage: the run lasts 25 virtual minutes of failing attempts.
+	LongOutage bool `json:"long_outage,omitempty"`
 }
 
 type H struct{}
@@ -117,6 +119,23 @@ func (H) Generate(rng *simrt.Rand, prop, tier string) (any, simrt.Config) {
 		sc.WaitNs = int64(rng.Intn(40)) * sc.MaxNs / 2
 	}
 	sc.Poll = !sc.Reconnect && rng.Chance(0.3)
+	// A long outage: every attempt fails quickly, nobody closes the client, and
+	// the run lasts 25 virtual minutes (retries must never give up).
+	if sc.Reconnect && rng.Chance(0.08) {
+		sc.Action, sc.CloseBefore, sc.WaitNs, sc.WaitSteps = "none", false, 0, 0
+		sc.LongOutage = true
+		sc.BaseNs = int64(time.Duration(1+rng.Intn(5)) * time.Second)
+		sc.MaxNs = int64(time.Duration(20+rng.Intn(60)) * time.Second)
+		for _, as := range sc.Types {
+			for i := range as {
+				as[i].ConnectNs = 0
+				if rng.Chance(0.5) {
+					as[i].SubErr = true
+				}
+				as[i].Items = []Item{{K: "err"}}
+			}
+		}
+	}
 	sc.BufferedEnd = rng.Chance(0.5)
 	sc.Resub = sc.Reconnect && sc.Action != "none" && rng.Chance(0.3)
 	if sc.Action == "close" && rng.Chance(0.3) {
@@ -441,6 +460,9 @@ func (H) Execute(x *common.Exec, s any) {
 		})
 	}
 	horizon := time.Duration(sc.WaitNs) + time.Duration(3*sc.MaxNs) + 10*time.Second
+	if sc.LongOutage {
+		horizon = 25 * time.Minute
+	}
 	out := x.R.Schedule(false, func() bool { return x.R.Now() > horizon || x.R.Steps > 20000 })
 	x.R.AcquireEnd()
 	if out == simrt.StepLimit {
@@ -526,6 +548,9 @@ func (H) Execute(x *common.Exec, s any) {
 	}
 	if sc.IgnoreCtx {
 		x.Fault("transport-ignores-context")
+	}
+	if sc.LongOutage {
+		x.Fault("outage-of-25-virtual-minutes")
 	}
 	hh := fnv.New64a()
 	for _, e := range evs {
